@@ -334,6 +334,30 @@ def run_mixed(cfg, out):
                     run.c.inc("failed_connects_with_early_sends")
                     w.net.filters.remove(cut_x)
                     w.remove_client(x)
+                # ... and on a connect attempt whose key agreement FAILS on the client (the crypto backend raises: an unsupported curve
+                # in the hello, no memory): whatever the client makes of it, what the application handed to send() stays off the wire
+                import mpgameserver.crypto as _K
+                x = w.add_client(addr=("10.3.0.9", 40999))        # (its half-open entry outlives it at the server: an address of its own)
+                x.udp.setConnectionTimeout(0.5)
+                x.on_connecting.append(lambda cl: [cl.udp.send(L.make_payload(cl.sender_id, 910000 + k, 40 + 100 * k), retry=rm) for k, rm in enumerate((-1, 0, 1))])
+                orig_ecdh = _K.ecdh_client
+
+                def failing_ecdh(*a, **kw):
+                    run.c.inc("client_key_agreements_failed")
+                    raise ValueError("injected: key agreement failed")
+                _K.ecdh_client = failing_ecdh
+                try:
+                    x.connect()
+                    for k in range(int(1.2 / w.dt)):
+                        w.step()
+                        if k % 10 == 5:
+                            try:
+                                x.udp.send(L.make_payload(x.sender_id, 920000 + k, 60), retry=0)
+                            except Exception:
+                                pass
+                finally:
+                    _K.ecdh_client = orig_ecdh
+                w.remove_client(x)
                 c = connect_at(w, r.choice([0, 65100, 65530]), run.C)
                 c.updates_per_step = 2
                 # the reactor thread that encodes and sends the server's packets is busy now and then: it gets to the batches of up to
@@ -468,7 +492,7 @@ def finish(tier, seed, results):
     inconclusive = []
     need(m["counters"], ["wire_gcm", "nonces_recorded", "wire_server_hello_clear", "silent_peer_datagrams", "silent_wraps",
                          "mirror_same_time_seq_ack_in_both_directions", "wire_c2s", "wire_s2c", "idlespin_spins",
-                         "client_hello_replayed_after_key_agreement", "client_wait_for_disconnect_calls", "datagrams_during_wait_for_disconnect", "failed_connects_with_early_sends", "blackouts_with_pending_sends", "livespin_spins", "livespin_instant_acks", "worlds_with_reactor_lag", "reactor_batches_delayed", "cipher_failures_in_thread_send",
+                         "client_hello_replayed_after_key_agreement", "client_wait_for_disconnect_calls", "datagrams_during_wait_for_disconnect", "failed_connects_with_early_sends", "client_key_agreements_failed", "blackouts_with_pending_sends", "livespin_spins", "livespin_instant_acks", "worlds_with_reactor_lag", "reactor_batches_delayed", "cipher_failures_in_thread_send",
                          "server_timed_out_client_while_sending"], inconclusive)
     cov = {
         "evaluations": m["evaluations"],
